@@ -55,6 +55,7 @@ class Builder:
         self.repo, self.vdir = repo, vdir
         self.canary = canary          # None, or predicate(contract) -> bool: insert `assert(false)` canaries
         self.canaries = []            # (key, instance, where)
+        self.const_checks = []        # fn-local consts replaced by literals: verified natively by const evaluation
         self.src = {n: Source(repo, n) for n in SRC_FILES}
         self.contracts = load_all(os.path.join(vdir, 'contracts'))
         self.used = set()
@@ -167,7 +168,10 @@ class Builder:
         self.fns.append(fnrec)
         # R11: `const X: T = E;` inside a fn body -> `let X: T = E;` (same value; E's arithmetic becomes proof obligations)
         if sp.body_open >= 0 and not (c is not None and c.mode in ('trusted', 'proved-kani')):
-            for mt in re.finditer(r'(?m)^([ \t]*)const (?=[A-Z_0-9]+\s*:)', m[sp.body_open:sp.body_close]):
+            skipc = set(n for n, _ in (c.rewrites_const if c is not None else []))
+            for mt in re.finditer(r'(?m)^([ \t]*)const (?=([A-Z_0-9]+)\s*:)', m[sp.body_open:sp.body_close]):
+                if mt.group(2) in skipc:
+                    continue
                 a0 = sp.body_open + mt.start()
                 edits.append(Edit(a0, sp.body_open + mt.end(), mt.group(1) + 'let ', 'R11'))
                 self.rewrites.append(dict(rule='R11', file=s.name, line=s.line(a0), fn=key, old='const', new='let',
@@ -245,6 +249,15 @@ class Builder:
                 edits.append(Edit(p, p + len(old), new, 'R4/R7/R8(explicit)', **ck))
                 self.rewrites.append(dict(rule='explicit', file=s.name, line=s.line(p), fn=key, old=old, new=new))
                 p += len(old)
+        for cname, cval in c.rewrites_const:
+            mt = re.search(r'const\s+' + cname + r'\s*:\s*([A-Za-z0-9_]+)\s*=\s*([^;]*);', t[sp.start:sp.end])
+            if not mt:
+                self.problems.append('%s: rewrite_const `%s` not found' % (key, cname))
+                continue
+            new = 'let %s: %s = %s;' % (cname, mt.group(1), cval)
+            edits.append(Edit(sp.start + mt.start(), sp.start + mt.end(), new, 'explicit-const', **ck))
+            self.rewrites.append(dict(rule='explicit', file=s.name, line=s.line(sp.start + mt.start()), fn=key, old=mt.group(0), new=new))
+            self.const_checks.append(dict(fn=key, name=cname, ty=mt.group(1), expr=mt.group(2).strip(), value=cval))
         for rx, tmpl in c.rewrites_re:
             hits = list(re.finditer(rx, t[sp.start:sp.end], re.S))
             if len(hits) != 1:
